@@ -80,6 +80,7 @@ def later_component_2x2(rng, ds):
         if not cands:
             return
         target = cands[0]
+    which = rng.randrange(4)
     for ui, u in enumerate(ds["ufos"]):
         gl = {g["name"]: g for g in u["glyphs"]}
         if target not in gl:
@@ -90,7 +91,10 @@ def later_component_2x2(rng, ds):
             comps = [{"base": simple[0], "t": [1, 0, 0, 1, 0, 0]}]
         first = dict(comps[0])
         first["t"] = [1, 0, 0, 1, first["t"][4], first["t"][5]]
-        second = {"base": simple[-1], "t": [0.5 + 0.25 * ui, 0, 0, 0.75, 40 + 3 * ui, 10]}
+        # exactly ONE entry of the 2x2 differs between masters (which one: per family)
+        t2 = [0.5, 0, 0, 0.75]
+        t2[which] += (0.25 if which in (0, 3) else 0.125) * ui
+        second = {"base": simple[-1], "t": t2 + [40 + 3 * ui, 10]}
         g["components"] = [first, second]
         for lname, layer in (u.get("layers") or {}).items():
             for lg in layer:
@@ -176,6 +180,31 @@ def collinear_in_one_master(rng, ds):
     return True
 
 
+def nested_chain_in_sparse(rng, ds):
+    """nest.three -> nest.two -> nest.one -> a simple glyph, in every full master; the sparse
+    layer holds nest.three only (its intermediate bases are not in the layer)."""
+    sp = (ds.get("meta") or {}).get("sparse")
+    base = ds["ufos"][0]["glyphs"]
+    simple = [g["name"] for g in base if g["contours"] and not g["components"]]
+    if not sp or not simple:
+        return False
+    s0 = simple[0]
+
+    def chain(k):
+        return [
+            {"name": "nest.one", "width": 500 + k, "unicodes": [], "contours": [], "anchors": [],
+             "components": [{"base": s0, "t": [1, 0, 0, 1, 10 + 3 * k, 5]}]},
+            {"name": "nest.two", "width": 510 + k, "unicodes": [], "contours": [], "anchors": [],
+             "components": [{"base": "nest.one", "t": [1, 0, 0, 1, 20 + 2 * k, -7 - k]}]},
+            {"name": "nest.three", "width": 520 + k, "unicodes": [], "contours": [], "anchors": [],
+             "components": [{"base": "nest.two", "t": [1, 0, 0, 1, 30 - k, 11]},
+                            {"base": s0, "t": [1, 0, 0, 1, 200 + 5 * k, 0]}]}]
+    for k, u in enumerate(ds["ufos"]):
+        u["glyphs"].extend(chain(k))
+    ds["ufos"][sp["host"]]["layers"][sp["layer"]].append(chain(7)[2])
+    return True
+
+
 def gen(rng, idx, tier):
     func = rng.choice(FUNCS)
     kinds = rng.choice([["line", "curve"], ["line", "curve", "qcurve"], ["curve"], ["line", "qcurve"]])
@@ -194,6 +223,8 @@ def gen(rng, idx, tier):
     opts = {}
     if "TTF" in func and rng.random() < 0.35:
         opts["flattenComponents"] = True
+        if rng.random() < 0.6 and nested_chain_in_sparse(rng, ds):
+            opts["_nested_in_sparse"] = True
     if "OTF" in func and rng.random() < 0.5:
         # the masters must stay unoptimised whatever the caller asks for (optimisation is a
         # per-font decision and would break compatibility)
@@ -312,6 +343,8 @@ def run(case):
     bump("ttf_runs" if is_tt else "otf_runs")
     if case["opts"].get("flattenComponents"):
         bump("flatten_runs")
+        if case["opts"].get("_nested_in_sparse"):
+            bump("flatten_nested_composite_in_sparse_master")
     if case["opts"].get("optimizeCFF"):
         bump("otf_runs_with_optimizeCFF")
         if case["opts"].get("_collinear"):
